@@ -144,6 +144,13 @@ def _shard(args) -> Dict[str, Any]:
                         sweep_ev += 1
                         if v:
                             viol.append((v[0] + "/same-opcode-follower", v[1], {"bytes": (first + fol).hex(), "addr": ADDR, "prior": [bytes(base).hex(), last_d.hex()], "ctx": _ctx(pre, op, tails, deep_tails, sweep_fill, callbacks)}))
+                # the same representative at addresses where it touches or straddles the end of a 64 KiB page and the end of the
+                # address space: the round trip is required "for every address"
+                for a2 in sorted({(top - k) & 0xFFFFF for top in (0x10000, 0x30000, 0x100000) for k in (0, 1, ln - 1, ln, ln + 1) if k >= 0}):
+                    cls, v = judge(bytes(base), a2, deep=False, callbacks=callbacks)
+                    sweep_ev += 1
+                    if v:
+                        viol.append((v[0] + "/page-end", v[1] + f" @ {a2:#x}", {"bytes": bytes(base).hex(), "addr": a2}))
                 if len(samples) < 2 and ln >= 4:
                     samples.append(f"sweep base={bytes(base).hex()} positions {len(head)}..{ln - 1} x 256 values")
     return {"ev": ev, "acc": acc, "sweep_ev": sweep_ev, "viol": viol, "samples": samples}
